@@ -35,3 +35,162 @@ class SymRange:
 
     def _contains(self, x):
         return mkbool(z3.And(z3num(x) >= z3num(self.lo), z3num(x) < z3num(self.hi)))
+
+
+def _rng_at(self, k):
+    return SR(z3num(self.lo) + z3num(k))
+
+
+SymRange._at = _rng_at
+
+
+class SymSeq:
+    """sequence of symbolic length whose k-th element is given by a closure"""
+
+    _symbolic_iter = True
+
+    def __init__(self, n, at, name="seq"):
+        self.n = n
+        self.at = at
+        self.name = name
+
+    def _len(self):
+        return self.n
+
+    def _at(self, k):
+        return self.at(k)
+
+    def _getitem(self, idx):
+        if isinstance(idx, (int, SR)):
+            cur().safety("index", z3.And(z3num(idx) >= 0, z3num(idx) < z3num(self.n)))
+            return self.at(idx if isinstance(idx, SR) else SR(z3.IntVal(idx)))
+        raise Unsupported("index %r of symbolic sequence" % (idx,))
+
+    def _truth(self):
+        return mkbool(z3num(self.n) != 0)
+
+
+class SymEnumerate:
+    _symbolic_iter = True
+
+    def __init__(self, base, start=0):
+        self.base = base
+        self.start = start
+
+    def _len(self):
+        return self.base._len()
+
+    def _at(self, k):
+        return (SR(z3num(k) + self.start) if not isinstance(k, int) else k + self.start, self.base._at(k))
+
+
+class SymZip:
+    _symbolic_iter = True
+
+    def __init__(self, *bases):
+        self.bases = bases
+
+    def _len(self):
+        return self.bases[0]._len()  # equal lengths are a precondition stated by the contract
+
+    def _at(self, k):
+        return tuple(b._at(k) if hasattr(b, "_at") else b[k] for b in self.bases)
+
+
+# ---------------------------------------------------------------------------------------------
+class LoopSpec:
+    """Invariant-based treatment of a loop with a symbolic number of iterations.
+
+    inv(st, env, k, old) -> list of (name, z3 Bool): must hold after k completed iterations (k: SR int term)
+    havoc(st, env, old): replace everything the body may modify by fresh symbolic values
+    variant(st, env) -> z3 Int term (while loops), must decrease and stay >= 0
+    The body is executed once for an arbitrary iteration k under the invariant (obligations loop#n.preserve.*), and the code
+    after the loop continues from a havocked state that satisfies the invariant at exit."""
+
+    def __init__(self, inv, havoc, variant=None, name=None, at_exit=None):
+        self.inv = inv
+        self.havoc = havoc
+        self.variant = variant
+        self.name = name
+        self.at_exit = at_exit
+
+    def _label(self, lid):
+        return self.name or ("%s.loop#%d" % (lid[0].split(".")[-1], lid[1]))
+
+    def run_for(self, interp, node, it, env, module, lid):
+        from .pyvc import PathKilled, BreakSig, ContinueSig, Env
+
+        st = interp.st
+        lab = self._label(lid)
+        if not hasattr(it, "_at"):
+            raise Unsupported("%s: iterable %r has no symbolic sequence protocol" % (lab, type(it)))
+        n = it._len()
+        old = dict(env.vars)
+        for nm, f in self.inv(st, env, SR(z3.IntVal(0)), old):
+            st.prove("%s.init.%s" % (lab, nm), f)
+        choose = st.fresh("loopbody", "bool")
+        if st.fork(choose):
+            # arbitrary iteration
+            self.havoc(st, env, old)
+            k = SR(st.fresh_int("iter"))
+            st.assume(z3.And(k.t >= 0, k.t < z3num(n)))
+            for nm, f in self.inv(st, env, k, old):
+                st.assume(f)
+            interp.assign(node.target, it._at(k), env, module)
+            try:
+                interp.exec_block(node.body, env, module)
+            except ContinueSig:
+                pass
+            except BreakSig:
+                if self.at_exit is not None:
+                    for nm, f in self.at_exit(st, env, k, old, True):
+                        st.prove("%s.break.%s" % (lab, nm), f)
+                    raise PathKilled()
+                return  # continue after the loop with the state at the break
+            for nm, f in self.inv(st, env, SR(k.t + 1), old):
+                st.prove("%s.preserve.%s" % (lab, nm), f)
+            raise PathKilled()
+        else:
+            self.havoc(st, env, old)
+            for nm, f in self.inv(st, env, n if isinstance(n, SR) else SR(z3.IntVal(n)), old):
+                st.assume(f)
+            if self.at_exit is not None:
+                for nm, f in self.at_exit(st, env, n, old, False):
+                    st.assume(f)
+            interp.exec_block(node.orelse, env, module)
+
+    def run_while(self, interp, node, env, module, lid):
+        from .pyvc import PathKilled, BreakSig, ContinueSig
+
+        st = interp.st
+        lab = self._label(lid)
+        old = dict(env.vars)
+        for nm, f in self.inv(st, env, None, old):
+            st.prove("%s.init.%s" % (lab, nm), f)
+        choose = st.fresh("loopbody", "bool")
+        if st.fork(choose):
+            self.havoc(st, env, old)
+            for nm, f in self.inv(st, env, None, old):
+                st.assume(f)
+            if not interp.truth(interp.eval(node.test, env, module)):
+                raise PathKilled()
+            v0 = self.variant(st, env) if self.variant else None
+            try:
+                interp.exec_block(node.body, env, module)
+            except ContinueSig:
+                pass
+            except BreakSig:
+                return
+            for nm, f in self.inv(st, env, None, old):
+                st.prove("%s.preserve.%s" % (lab, nm), f)
+            if v0 is not None:
+                v1 = self.variant(st, env)
+                st.prove("%s.variant.decreases" % lab, z3.And(v0 >= 0, v1 < v0))
+            raise PathKilled()
+        else:
+            self.havoc(st, env, old)
+            for nm, f in self.inv(st, env, None, old):
+                st.assume(f)
+            if interp.truth(interp.eval(node.test, env, module)):
+                raise PathKilled()
+            interp.exec_block(node.orelse, env, module)
